@@ -1,7 +1,7 @@
 (* Properties/C09.v — JSON Patch operations conform to RFC 6902 and fail cleanly. *)
 From Coq Require Import List String Bool ZArith Arith.
 From YT Require Import Base.Str Base.KV Model.Doc Model.Dom Model.Pointer Model.Builder Model.Equals Model.Patch
-  Proofs.PatchProofs Proofs.PatchLawsProofs.
+  Model.Path Model.Diff Model.Xform Proofs.PatchProofs Proofs.PatchLawsProofs Proofs.PropsPathProofs Proofs.XformProofs.
 Import ListNotations.
 Local Open Scope list_scope.
 
@@ -169,3 +169,26 @@ Example C09_ex :
   impl_do d (PMove (Some ["c"; "0"]%string) ["c"; "1"]%string) =
     (Con [("c"%string, Lst [Con [("w"%string, Leaf (SInt 2))]; Con [("v"%string, Leaf (SInt 1))]])], true).
 Proof. vm_compute. repeat split; reflexivity. Qed.
+
+(* ---------- "xform.DiffMod2PatchOp output fed to patch.Do": the operation object made of a modification at a flattened
+   path of a document addresses that very leaf of the document (so a Change becomes a replace of it, a Delete a remove of
+   it), and the kind of operation follows the kind of modification.  The route path text -> pointer is C02's. *)
+Theorem C09_diff_mod_addresses_leaf : forall kvs m v,
+  wf (Con kvs) = true -> keys_safe (Con kvs) = true -> In (mpath m, v) (flatten (Con kvs)) ->
+  exists sigma, mpath m = render_steps sigma /\
+    (idx_small sigma -> exists o, mod2pop m = Some o /\ snd (ptr_eval (pop_path o) (Con kvs)) = Some (Leaf v)).
+Proof. exact mod2pop_addresses_leaf. Qed.
+Print Assumptions C09_diff_mod_addresses_leaf.
+Theorem C09_diff_mod_kind : forall m o, mod2pop m = Some o ->
+  match mt m, o with
+  | MAdd, PAdd _ (Some (Leaf v)) | MChange, PReplace _ (Some (Leaf v)) => v = mval m
+  | MDelete, PRemove _ => True
+  | _, _ => False
+  end.
+Proof. exact mod2pop_kind. Qed.
+Print Assumptions C09_diff_mod_kind.
+
+Example C09_diff_mod_ex :
+  mod2pop (mkMod MChange "a.b[1].c" (SInt 5) (SInt 4)) = Some (PReplace ["a"; "b"; "1"; "c"]%string (Some (Leaf (SInt 5)))) /\
+  mod2pop (mkMod MDelete "x[0][2]" SNull SNull) = Some (PRemove ["x"; "0"; "2"]%string).
+Proof. vm_compute. split; reflexivity. Qed.
